@@ -668,6 +668,24 @@ func (env *SpecEnv) evalCall(x *SExpr) Val {
 		return mkBool(and(eq(r.Terms[0], app("+", a.Terms[0], n)),
 			env.seqEq(r, "0", a, "0", a.Terms[0], false),
 			env.seqEq(r, a.Terms[0], b, i, n, false)))
+	case "identical":
+		// identical(a, b): every leaf equal (slices: same length, nil-ness and the very same backing contents)
+		a, b := arg(0), arg(1)
+		if len(a.Terms) != len(b.Terms) {
+			specFail("identical: different shapes %v %v", a.T, b.T)
+		}
+		var cs []string
+		for i := range a.Terms {
+			cs = append(cs, eq(a.Terms[i], b.Terms[i]))
+		}
+		return mkBool(and(cs...))
+	case "isconcat_range":
+		// isconcat_range(r, a, b, lo, hi): r == a ++ b[lo:hi]
+		r, a, b, lo, hi := arg(0), arg(1), arg(2), t0(3), t0(4)
+		n := app("-", hi, lo)
+		return mkBool(and(eq(r.Terms[0], app("+", a.Terms[0], n)),
+			env.seqEq(r, "0", a, "0", a.Terms[0], false),
+			env.seqEq(r, a.Terms[0], b, lo, n, false)))
 	case "isappend1":
 		// isappend1(r, a, x): r == a ++ [x]
 		r, a, xv := arg(0), arg(1), arg(2)
